@@ -80,6 +80,13 @@ def has_any(t) -> bool:
                 return True
             return super().visit_instance(t)
 
+        def visit_tuple_type(self, t):
+            # the synthesized fallback (tuple[Any, ...] for variadic tuples) is not part of the type's meaning
+            return self.query_types(t.items)
+
+        def visit_typeddict_type(self, t):
+            return self.query_types(list(t.items.values()))
+
         def visit_type_alias_type(self, t):
             # recursive aliases: look at args only (alias body inspected once below)
             return self.query_types(t.args)
@@ -323,6 +330,9 @@ def eval_deep(arg):
             children.map(lambda x: T.Instance(inv_info, [x])),
             st.lists(children, min_size=1, max_size=3).map(lambda xs: T.TupleType(list(xs), T.Instance(tuple_info, [obj]))),
             children.map(lambda x: T.Instance(tuple_info, [x])),
+            st.tuples(st.lists(children, max_size=2), children, st.lists(children, max_size=2)).map(
+                lambda a: T.TupleType(list(a[0]) + [T.UnpackType(T.Instance(tuple_info, [a[1]]))] + list(a[2]), T.Instance(tuple_info, [obj]))
+            ),
             st.tuples(st.lists(children, max_size=2), children).map(
                 lambda ar: T.CallableType(list(ar[0]), [ARG_POS] * len(ar[0]), [None] * len(ar[0]), ar[1], func_fallback)
             ),
@@ -464,10 +474,24 @@ def run(run: Run) -> None:
     import random
 
     rnd = random.Random(run.seed)
-    nseq = 32 if q else 640
+    nseq = 64 if q else 1600
     seqs = []
+    # pairs of the same kind cell (same generic class, tuples, callables ...) are where a flag can change the answer
+    by_kind: dict[str, list[int]] = {}
+    for i, k in enumerate(kinds):
+        by_kind.setdefault(k, []).append(i)
+    rel_kinds = sorted(k for k, v in by_kind.items() if len(v) >= 2)
     for _ in range(nseq):
-        seqs.append([(rnd.randrange(n), rnd.randrange(n), rnd.randrange(len(FLAG_SETS))) for _ in range(150)])
+        pairs = []
+        for _p in range(14):
+            if rnd.random() < 0.7:
+                grp = by_kind[rnd.choice(rel_kinds)]
+                pairs.append((rnd.choice(grp), rnd.choice(grp)))
+            else:
+                pairs.append((rnd.randrange(n), rnd.randrange(n)))
+        sq = [(i, j, f) for (i, j) in pairs for f in range(len(FLAG_SETS))]  # every pair under every flag set
+        rnd.shuffle(sq)
+        seqs.append(sq)
     for (cnt, bad), sq in zip(pmap(eval_cache_seq, seqs, recycle=None), seqs):
         run.count(cnt)
         run.label("cache_queries", cnt)
@@ -477,7 +501,7 @@ def run(run: Run) -> None:
                 {"sub": "cache", "s": names[i], "t": names[j], "flags": FLAG_SETS[f]},
                 "query (%s, %s, %s): cold caches -> %s, warm caches -> %s" % (names[i], names[j], FLAG_SETS[f], cold, got),
             )
-    run.sample({"sub": "cache_sequence", "first_queries": [(names[i], names[j], FLAG_SETS[f]) for i, j, f in seqs[0][:4]], "length": 150})
+    run.sample({"sub": "cache_sequence", "first_queries": [(names[i], names[j], FLAG_SETS[f]) for i, j, f in seqs[0][:4]], "length": len(seqs[0])})
     # ---- deep types; leaves restricted to types not involved in a base-level join/meet/union finding
     clean = [i for i in range(n) if i not in tainted_join_meet]
     run.label("deep_leaf_types", len(clean))
